@@ -56,6 +56,47 @@ def describe(obj):
     return d
 
 
+def capture_stage(src, ns, closure_name):
+    """Run the last compilation stage (compile_closure_with_globals_capturing) with a recording compiler: which namespace
+    names are inlined as literals and which are passed as globals, and whether each global IS the registered object."""
+    from adaptix._internal.morphing.model.basic_gen import compile_closure_with_globals_capturing
+    seen = {}
+
+    class Recorder:
+        def compile(self, base_filename, filename_maker, builder, namespace):
+            seen["text"] = builder.string()
+            seen["globals"] = dict(namespace)
+            return None
+
+    hook_seen = {}
+
+    def hook(data):
+        hook_seen["source"] = data.source
+    compile_closure_with_globals_capturing(compiler=Recorder(), code_gen_hook=hook, namespace=ns, closure_name=closure_name,
+                                           closure_code=src, file_name="f")
+    out = []
+    text = seen.get("text", "")
+    head = text.split("\n\n", 1)[0] if "\n\n" in text else text
+    binds = {}
+    for line in head.split("\n"):
+        if " = " in line and not line.startswith((" ", "def ")):
+            n, e = line.split(" = ", 1)
+            binds[n] = e
+    for name, value in ns.items():
+        e = binds.get(name)
+        rec = {"name": name, "expr": e, "probe": encode_value(value), "tag": TAGS.get(id(value))}
+        if e is not None and e in seen.get("globals", {}):
+            rec["mode"] = "global"
+            rec["same_object"] = seen["globals"][e] is value
+            rec["bound_type"] = type(seen["globals"][e]).__module__ + "." + type(seen["globals"][e]).__qualname__
+        elif e is not None:
+            rec["mode"] = "literal"
+        else:
+            rec["mode"] = "missing"
+        out.append(rec)
+    return out
+
+
 # ----------------------------------------------------------------------------------------------------------------
 # model loader / dumper family
 
@@ -91,6 +132,11 @@ def loader_family(tier, seed):
         return ["factory-result"]
     tag(custom_factory, "factory:custom")
 
+    def immutable_factory():
+        # impure factories may return immutable values (counter, timestamp): the result must never be inlined
+        return ("factory-result", 1)
+    tag(immutable_factory, "factory:immutable")
+
     # field kinds: name -> (is_required, default maker)
     def mk_default(kind, fid):
         if kind in ("R", "O"):
@@ -108,6 +154,16 @@ def loader_family(tier, seed):
             return DefaultFactory(list)
         if kind == "DFO":
             return DefaultFactory(custom_factory)
+        if kind == "DFI":
+            return DefaultFactory(immutable_factory)
+        if kind == "DVE":
+            # two defaults that compare equal but are different objects of different types (capture stage must keep both)
+            from decimal import Decimal
+            from fractions import Fraction
+            o = Fraction(2) if fid.endswith("b") else Decimal(2)
+            _KEEP.append(o)
+            tag(o, f"default:{fid}")
+            return DefaultValue(o)
         raise ValueError(kind)
 
     PK = {"P": ParamKind.POS_ONLY, "K": ParamKind.POS_OR_KW, "W": ParamKind.KW_ONLY}
@@ -169,6 +225,9 @@ def loader_family(tier, seed):
         "renamed": [("a", "R", "K", "a_param"), ("b", "DV", "W", "b_param")],
         "three": [("a", "R", "K", "a"), ("b", "R", "K", "b"), ("c", "DV", "K", "c")],
         "r_dv_dv": [("a", "R", "K", "a"), ("b", "DV", "K", "b"), ("c", "DVN", "K", "c")],
+        "r_dfi": [("a", "R", "K", "a"), ("b", "DFI", "K", "b")],
+        "r_dve": [("a", "R", "K", "a"), ("b", "DVE", "K", "b"), ("cb2", "DVE", "K", "cb2"), ("c", "DVE", "K", "c")],
+        "r_o_dv": [("a", "R", "K", "a"), ("b", "O", "K", "b"), ("c", "DV", "K", "c")],   # packed field before a positional one
         "dv_only": [("a", "DV", "K", "a")],     # with crown skip_opt: a model whose only field is skipped (empty root crown)
     }
     # crowns for 1..3 fields named a,b,c(,d)
@@ -218,7 +277,8 @@ def loader_family(tier, seed):
                             ("collect", "forbid", "saturate"), ("skip", "skip", "kwargs")]
             if quick:
                 # keep the quick family small but covering: every crown kind; policies and modes on a subset
-                if sname not in ("r2", "r_dv", "r_dvn", "r_o", "p_k_dv_w", "r_dvo", "r_dfo", "renamed", "r_dv_dv", "dv_only"):
+                if sname not in ("r2", "r_dv", "r_dvn", "r_o", "p_k_dv_w", "r_dvo", "r_dfo", "renamed", "r_dv_dv", "dv_only", "r_dfi",
+                                 "r_dve", "r_o_dv"):
                     continue
                 if sname == "dv_only":
                     if cname != "skip_opt":
@@ -260,6 +320,8 @@ def loader_family(tier, seed):
                             props=ModelLoaderProps(),
                         )
                         src, ns = gen.produce_code("model_loader")
+                        origins = take_origins(src)
+                        capture = capture_stage(src, ns, "model_loader")
                     except Exception as e:
                         emit({"kind": "loader", "error": f"{type(e).__name__}: {e}", "shape": sname, "crown": cname,
                               "trace": traceback.format_exc()[-600:]})
@@ -272,7 +334,7 @@ def loader_family(tier, seed):
                         "crown": crown_j, "extra_move": move, "debug_trail": dt.name, "strict": sc,
                         "skipped": sorted(skipped),
                         "as_is": sorted(k for k, v in loaders.items() if v is as_is_stub),
-                        "source": src, "origins": take_origins(src),
+                        "source": src, "origins": origins, "capture": capture,
                         "namespace": {k: describe(v) for k, v in ns.items()},
                     })
         # ExtraTargets: one more field `e` that receives the extras
